@@ -94,37 +94,44 @@ PROPS["C20"] = {
 PROPS["C23"] = {
     "title": "Expression evaluation obeys Cypher laws",
     "kani": [(_Q, r"^c23_")],
-    "e2": [],
+    "e2": ["c23"],
     "functions_encoded": ["evaluator_equality::cypher_equals", "evaluator_compare::compare_values",
                           "evaluator_compare::compare_numbers_for_range", "evaluator_arithmetic::{add,subtract,multiply,divide}_values",
-                          "evaluator_numeric::{numeric_binop,numeric_div,numeric_mod}"],
+                          "evaluator_numeric::{numeric_binop,numeric_div,numeric_mod}",
+                          "evaluator::evaluate_expression_value (And / Or / Xor / Not arms, entered arm-locally)"],
     "bounds": {"values": "all i64 / f64 / bool bit patterns per shape", "shapes": "see coverage.samples",
+               "logic": "all 9 (3 for NOT) rows of each truth table over {true, false, null}",
                "multiplication": "quick: one factor 16-bit; thorough: full 64x64",
                "division/remainder": "divisor in {0,-1,1} with a full-range dividend; both operands symbolic on 8 bit (quick) / "
                "16 bit (thorough); full-width symbolic dividers attempted only (64/128-bit dividers do not finish in CBMC)"},
     "stubs": [],
     "assumptions": ["NaN excluded from the equivalence laws (as in the property)"],
     "outside_claim": ["strings, lists, maps, temporal/duration arithmetic, powf, unary minus, float rounding",
-                      "AND/OR/XOR/NOT truth tables (E2 obligation O4)"],
+                      "non-boolean operands of AND/OR/XOR/NOT (the code maps them to null)"],
     "level_text": "Bounded model checking (Kani/CBMC) of the real equality, comparison and arithmetic kernels: = is reflexive, "
                   "symmetric, transitive on non-NaN scalars incl. Int/Float mixes over the full 64-bit ranges; <,<=,>,>= agree with "
                   "= , with each other and with the ORDER BY order; null propagates; + - * follow one overflow rule (exact Int if it "
-                  "fits, else Float), x/0 and x%0 are null, MIN/-1 and MIN%-1 do not panic. Partial: scalar kernels only.",
+                  "fits, else Float), x/0 and x%0 are null, MIN/-1 and MIN%-1 do not panic; plus path-wise symbolic execution (z3) of "
+                  "the AND/OR/XOR/NOT arms of the evaluator against Kleene's truth tables (De Morgan follows from the tables). "
+                  "Partial: scalar kernels only.",
     "level_note": "Trusted: Kani/CBMC/CaDiCaL incl. its IEEE-754 float model. Strings/collections/temporal values outside.",
     "design_ref": "DESIGN.md section 3, C23",
 }
 PROPS["C15"] = {
     "title": "Indexes never change query results",
     "kani": [(_Q, r"^c15_")],
-    "e2": [],
-    "functions_encoded": ["evaluator_equality::cypher_equals", "nervusdb_storage::index::ordered_key::encode_ordered_value"],
+    "e2": ["c15"],
+    "functions_encoded": ["evaluator_equality::cypher_equals", "nervusdb_storage::index::ordered_key::encode_ordered_value",
+                          "executor::index_seek_plan::execute_index_seek"],
     "bounds": {"values": "all i64 / f64 (non-NaN) / bool pairs", "shapes": "(Int,Int) (Float,Float) (Bool,Bool) (Int,Float)"},
     "stubs": [],
     "assumptions": ["index lookup = prefix match on enc(value) (prefix-freeness is C27)"],
     "outside_claim": ["index maintenance at commit, back-fill, catalog, B-tree contents (C26), planner's choice of IndexSeek",
                       "strings (C27 covers key order; Cypher string equality is byte equality)"],
     "level_text": "Bounded model checking (Kani/CBMC) that the index lookup key agrees with Cypher equality on scalars: "
-                  "cypher_equals(a,b)=true iff enc(a)=enc(b), over all 64-bit payloads. Partial: key/equality agreement only; "
+                  "cypher_equals(a,b)=true iff enc(a)=enc(b), over all 64-bit payloads; plus path-wise symbolic execution (z3) of "
+                  "execute_index_seek: the seek value reaches the index lookup kind-for-kind and bit-for-bit, unsupported kinds and a "
+                  "missing/empty index answer run the fallback scan plan, a non-empty answer is emitted alone and sorted. Partial; "
                   "the Int-vs-Float disagreement (1 = 1.0 but different keys) is a recorded known finding.",
     "level_note": "Trusted: Kani/CBMC/CaDiCaL. The seek fallback rule (E2) and index maintenance are not decided here.",
     "design_ref": "DESIGN.md section 3, C15",
